@@ -90,6 +90,30 @@ def _scenario(ctx, i):
             sp['de'] = r.uniform(0.003, 0.01)
         scn['release']['sd_max'] = 1e5
         return scn
+    if i % 8 == 3:
+        # cross-current exit class (added after seeded change C04-1 was missed): vertical release in a uniform
+        # 0.2-0.3 m/s current, small bubbles of >= 2 dissolving compounds that stay in the plume, LARGE inert
+        # droplets that leave it while the bubbles still dissolve, one tracer, long travel distance; the inert
+        # class is listed last or first
+        scn = scen_bpm.random_scenario(r, nparticles=2, depth=r.uniform(400., 900.), mix='gas', biodeg=False,
+                                       background='none', current='uniform', strat='normal', wa=False)
+        speed, ang = r.uniform(0.2, 0.3), r.uniform(0., 2. * math.pi)
+        H = scn['profile']['H']
+        scn['profile']['current'] = {'nodes': [[0., speed * math.cos(ang), speed * math.sin(ang), 0.],
+                                               [H, speed * math.cos(ang), speed * math.sin(ang), 0.]], 'wa': False}
+        gas = scn['particles'][0]
+        comp = r.choice([['methane', 'ethane'], ['methane', 'ethane', 'propane'], ['methane', 'carbon_dioxide']])
+        yk = [r.uniform(0.5, 0.9)] + [r.uniform(0.05, 0.3) for _ in comp[1:]]
+        yk = [y / sum(yk) for y in yk]
+        gas.update(kind='gas', composition=comp, yk=yk, k_bio=[0.] * len(comp), t_bio=[0.] * len(comp),
+                   mdot=r.uniform(0.05, 0.5), de=r.uniform(0.001, 0.002), K=1., K_T=1., fdis=1e-6, t_hyd=0., dT0=0.)
+        inert = {'kind': 'inert', 'rho_p': r.uniform(800., 900.), 'compressible': False, 'gamma': 30.,
+                 'mdot': r.uniform(0.5, 3.), 'de': r.uniform(0.008, 0.012), 'k_bio': 0., 't_bio': 0.,
+                 'lambda_1': 0.9, 'K': 1., 'K_T': 1., 'fdis': 1e-6, 't_hyd': 0., 'lag_time': False, 'dT0': 0.}
+        scn['particles'] = [gas, inert] if r.random() < 0.6 else [inert, gas]
+        scn['release'].update(D=0.3, Vj=1.0, phi_0=-math.pi / 2, theta_0=0., dt_max=60., sd_max=3000.,
+                              tracers=['tracer0'], cj=[1.0])
+        return scn
     scn = scen_bpm.random_scenario(r, nparticles=npart, depth=depth, mix=mix, biodeg=False, background='none')
     if i % 8 == 2:
         scn['release']['phi_0'] = 0.           # exactly horizontal release (end of the quantifier's range)
@@ -329,9 +353,14 @@ def run(ctx, lean_ok):
             with np.errstate(all='ignore'):
                 bpm, prf, parts = scen_bpm.simulate(scn)
         except Exception as e:
-            # whether every valid input completes is C20; C04 is about completed simulations
+            # an exception is not among the admissible endings of a simulation (surface, neutral buoyancy after the
+            # peak, travel distance, stall, iteration cap): every generated scenario is a valid input and completes on
+            # the unchanged tree, so a raise is reported with the scenario as replay
             ctx.count('simulation-raised:' + type(e).__name__)
             ctx.notes.append('scenario %d raised %s: %s' % (i, type(e).__name__, str(e)[:120]))
+            ctx.violation('simulation-raised:' + type(e).__name__,
+                          'bent-plume simulation of a valid scenario raised %s instead of ending in a documented way' % type(e).__name__,
+                          {'scenario': scn, 'exception': '%s: %s' % (type(e).__name__, str(e)[:300])})
             nrej += 1
             continue
         ctx.evaluations += 1
